@@ -315,6 +315,11 @@ func (s *StatusVars) CatalogNZ(name string) *StatusVars {
 	s.b = append(append(s.b, 6, byte(len(name))), name...)
 	return s
 }
+// CatalogOld is Q_CATALOG (code 2), the 5.0.0-5.0.3 form: length, name, NUL.
+func (s *StatusVars) CatalogOld(name string) *StatusVars {
+	s.b = append(append(append(s.b, 2, byte(len(name))), name...), 0)
+	return s
+}
 func (s *StatusVars) AutoIncrement(inc, off uint16) *StatusVars {
 	s.b = append(append(append(s.b, 3), le16(inc)...), le16(off)...)
 	return s
